@@ -48,11 +48,17 @@ std::istream& read(std::istream& stream, tensor_t<tstorage, tscalar, trank>& ten
         return stream;
     }
 
-    tensor.resize(dims);
-    if (!::nano::read(stream, tensor.data(), tensor.size()) || // content
-        ihash != detail::hash(tensor.data(), tensor.size()))
+    // NB: allocate a new tensor, so that the given one stays valid if the dimensions are corrupted and the allocation fails!
+    tensor_t<tstorage, tscalar, trank> content;
+    content.resize(dims);
+    if (!::nano::read(stream, content.data(), content.size()) || // content
+        ihash != detail::hash(content.data(), content.size()))
     {
         stream.setstate(std::ios_base::failbit);
+    }
+    else
+    {
+        tensor = std::move(content);
     }
     return stream;
 }
